@@ -145,6 +145,8 @@ theorem neutral_joined (k : Nat) : Neutral (.joined k) := by
   intro j; constructor <;> intros <;> simp [evSt, nDeliver]
 theorem neutral_pauseSet (p : Bool) : Neutral (.pauseSet p) := by
   intro j; constructor <;> intros <;> simp [evSt, nDeliver]
+theorem neutral_guardOk (k : Nat) : Neutral (.guardOk k) := by
+  intro j; constructor <;> intros <;> simp [evSt, nDeliver]
 
 
 /-! ### clients -/
@@ -232,6 +234,8 @@ theorem clNeutral_sampledOut (k' x : Nat) : ClNeutral (.sampledOut k' x) := by
 theorem clNeutral_ephDrop (x : Nat) : ClNeutral (.ephDrop x) := by
   intro h k; simp [nDeliverBy, nReqBy, rdyOf, closedOf]
 theorem clNeutral_pauseSet (p : Bool) : ClNeutral (.pauseSet p) := by
+  intro h k; simp [nDeliverBy, nReqBy, rdyOf, closedOf]
+theorem clNeutral_guardOk (k' : Nat) : ClNeutral (.guardOk k') := by
   intro h k; simp [nDeliverBy, nReqBy, rdyOf, closedOf]
 
 /-! ### the invariant -/
@@ -619,15 +623,13 @@ theorem nQueued_setE {l : List Entry} (hn : (l.map (·.id)).Nodup) {e : Entry} (
       = nQueued l + (if isQueued { e with att := a, loc := loc } then 1 else 0) :=
   countP_setE hn he a loc isQueued
 
-theorem inv_deliver (conf : Conf) {c : Chan} (hi : Inv 0 c) (k id : Nat) (now : Int) :
-    Inv 0 (step conf c (.deliver k id now)).1 := by
-  simp only [step]
-  split
-  · exact hi
-  · rename_i cl hf
-    split
-    · exact hi
-    · split
+theorem inv_doDeliver {c : Chan} (hi : Inv 0 c) (cl : Client) (k id : Nat) (now : Int) :
+    Inv 0 (doDeliver c cl k id now).1 := by
+  unfold doDeliver
+  have hdummy : True := trivial
+  · have hdummy2 : True := trivial
+    · have hdummy3 : True := trivial
+      split
       · exact hi
       · rename_i e hfe
         obtain ⟨he, hid⟩ := findE_some hfe
@@ -677,6 +679,24 @@ theorem inv_deliver (conf : Conf) {c : Chan} (hi : Inv 0 c) (k id : Nat) (now : 
               · simp only [hk, ↓reduceIte]
                 simp only [ClOk, nDeliverBy, nReqBy, rdyOf, closedOf, Ne.symm hk, ↓reduceIte, Nat.add_zero] at h0 ⊢
                 exact h0 }
+
+theorem inv_deliver (conf : Conf) {c : Chan} (hi : Inv 0 c) (k id : Nat) (now : Int) :
+    Inv 0 (step conf c (.deliver k id now)).1 := by
+  simp only [step]
+  split
+  · exact hi
+  · split
+    · exact hi
+    · exact inv_doDeliver hi _ k id now
+
+theorem inv_deliverArmed (conf : Conf) {c : Chan} (hi : Inv 0 c) (k id : Nat) (now : Int) :
+    Inv 0 (step conf c (.deliverArmed k id now)).1 := by
+  simp only [step]
+  split
+  · exact hi
+  · split
+    · exact hi
+    · exact inv_doDeliver hi _ k id now
 
 theorem inv_sampleDrop (conf : Conf) {c : Chan} (hi : Inv 0 c) (k id : Nat) :
     Inv 0 (step conf c (.sampleDrop k id)).1 := by
@@ -1033,6 +1053,26 @@ theorem inv_deferDueOne {c : Chan} (hi : Inv 0 c) (id : Nat) : Inv 0 (deferDueOn
     · exact hi
   · exact hi
 
+theorem inv_guard (conf : Conf) {c : Chan} (hi : Inv 0 c) (k : Nat) : Inv 0 (step conf c (.guard k)).1 := by
+  simp only [step]
+  split
+  · exact hi
+  · split
+    · have h1 : Inv 0 { c with hist := Ev.guardOk k :: c.hist } :=
+        { core := core_neutral hi.core (neutral_guardOk k)
+          okh := by simp [okHist, okEv, hi.okh]
+          counts := hi.counts, memcap := hi.memcap, eph := hi.eph
+          mcF := by simpa [nEv, isFanout] using hi.mcF
+          mcL := by have := hi.mcL; simp only [nGone_cons] at this ⊢; omega
+          rq := by simpa [nEv, isReq] using hi.rq
+          to := by simpa [nEv, isTimeout] using hi.to
+          held := by intro k'; simpa [outstanding] using hi.held k'
+          cnodup := hi.cnodup
+          paused := by simpa [pausedOf] using hi.paused
+          cl := fun cl hcl => clOk_neutral (clNeutral_guardOk _) (hi.cl cl hcl) }
+      exact inv_updC_free h1 k _ (fun _ => ⟨rfl, rfl, rfl, rfl, rfl⟩)
+    · exact inv_updC_free hi k _ (fun _ => ⟨rfl, rfl, rfl, rfl, rfl⟩)
+
 theorem inv_foldl {f : Chan → Nat → Chan} (hf : ∀ c id, Inv 0 c → Inv 0 (f c id)) (l : List Nat) {c : Chan}
     (hi : Inv 0 c) : Inv 0 (l.foldl f c) := by
   induction l generalizing c with
@@ -1061,6 +1101,8 @@ theorem step_inv (conf : Conf) {c : Chan} (hi : Inv 0 c) (op : Op) : Inv 0 (step
   | resplit m d => exact inv_resplit conf hi m d
   | finChan k id => exact inv_finChan conf hi k id
   | finClient k => exact inv_finClient conf hi k
+  | guard k => exact inv_guard conf hi k
+  | deliverArmed k id now => exact inv_deliverArmed conf hi k id now
 
 theorem inv_init (eph : Bool) (cap : Nat) : Inv 0 { ephemeral := eph, memCap := cap } :=
   { core := ⟨by simp, by simp, by intro j hj; simp [status, St.located] at hj⟩
